@@ -129,8 +129,8 @@ type Script struct {
 	MutateAfterRecv bool `json:"mutate_after_recv,omitempty"`
 	// CancelAfterClient cancels the caller's context once the client actors
 	// are done (what an application does when it abandons a stream).
-	CancelAfterClient bool `json:"cancel_after_client,omitempty"`
-	ExtraOpts     []grpc.CallOption `json:"-"`
+	CancelAfterClient bool              `json:"cancel_after_client,omitempty"`
+	ExtraOpts         []grpc.CallOption `json:"-"`
 }
 
 func (s *Script) Shape() string {
@@ -190,18 +190,19 @@ type Run struct {
 	HandlerCtxErr  error
 
 	// client side results
-	HdrTargets []*metadata.MD
-	TrlTargets []*metadata.MD
-	PeerTarget *peer.Peer
-	OutMD      metadata.MD // the very map given to metadata.NewOutgoingContext
-	Stream     grpc.ClientStream
-	UnaryResp  *tpb.Message
+	HdrTargets   []*metadata.MD
+	TrlTargets   []*metadata.MD
+	PeerTarget   *peer.Peer
+	OutMD        metadata.MD // the very map given to metadata.NewOutgoingContext
+	Stream       grpc.ClientStream
+	UnaryResp    *tpb.Message
 	NewStreamErr error
 
-	RecvStarted  atomic.Int64 // receives (RecvMsg/Header) started by the client (C20)
-	HRecvStarted atomic.Int64 // receives started by the handler
-	CSendDone    atomic.Int64 // client sends that returned nil
-	HSendDone    atomic.Int64 // handler sends that returned nil
+	RecvStarted   atomic.Int64 // receives (RecvMsg / first Header) started by the client (C20)
+	headerCounted atomic.Bool
+	HRecvStarted  atomic.Int64 // receives started by the handler
+	CSendDone     atomic.Int64 // client sends that returned nil
+	HSendDone     atomic.Int64 // handler sends that returned nil
 	// Lead records every moment a sender was more than one message ahead of
 	// the receives its peer had started (checked when a send returns).
 	leadMu sync.Mutex
@@ -209,10 +210,10 @@ type Run struct {
 	// OnHandler, if set, runs inside the handler before its script (probes).
 	OnHandler func(ctx context.Context, r *Run, stream grpc.ServerStream)
 	// OnRecv, if set, is called with every message the client receives (fresh object).
-	OnRecv func(m *tpb.Message)
+	OnRecv  func(m *tpb.Message)
 	OnHRecv func(m *tpb.Message)
-	Dest  func() *tpb.Message // client receive destination factory (default: new(Message))
-	HDest func() *tpb.Message // handler receive destination factory
+	Dest    func() *tpb.Message // client receive destination factory (default: new(Message))
+	HDest   func() *tpb.Message // handler receive destination factory
 	// the very objects handed to / obtained from the library, in order (C06)
 	objMu                                      sync.Mutex
 	CSentObjs, HSentObjs, CRecvObjs, HRecvObjs []*tpb.Message
@@ -398,7 +399,7 @@ func (s *Service) lookup(ctx context.Context) *Run {
 var ScriptedDesc = grpc.ServiceDesc{
 	ServiceName: "verif.Scripted",
 	HandlerType: (*ScriptedServer)(nil),
-	Methods: []grpc.MethodDesc{{MethodName: "Unary", Handler: scriptedUnaryHandler}},
+	Methods:     []grpc.MethodDesc{{MethodName: "Unary", Handler: scriptedUnaryHandler}},
 	Streams: []grpc.StreamDesc{
 		{StreamName: "ClientStream", ClientStreams: true, Handler: scriptedStreamHandler},
 		{StreamName: "ServerStream", ServerStreams: true, Handler: scriptedStreamHandler},
@@ -588,7 +589,10 @@ func (r *Run) runHandlerOps(ctx context.Context, stream grpc.ServerStream) {
 				pan := guard(func() { err = stream.SendMsg(msg) })
 				r.rec(Event{Who: "h", Op: "send", Msg: msg, Err: err, Pan: pan})
 				r.rec(Event{Who: "hg", Op: "late-send", Err: err, Pan: pan})
-				pan = guard(func() { stream.SetTrailer(metadata.MD{"late": {"x"}}); err = stream.SetHeader(metadata.MD{"late": {"y"}}) })
+				pan = guard(func() {
+					stream.SetTrailer(metadata.MD{"late": {"x"}})
+					err = stream.SetHeader(metadata.MD{"late": {"y"}})
+				})
 				r.rec(Event{Who: "hg", Op: "late-meta", Err: err, Pan: pan})
 			}()
 		case "sendraw":
@@ -976,7 +980,11 @@ func (r *Run) runClientOps(who string, st grpc.ClientStream, ops []Op) {
 				}
 			}
 		case "header":
-			r.RecvStarted.Add(1)
+			// Header() may have to take one frame off the stream, but only once: later calls
+			// must not consume anything, so only the first counts as a started receive
+			if r.headerCounted.CompareAndSwap(false, true) {
+				r.RecvStarted.Add(1)
+			}
 			r.rec(Event{Who: who, Op: "header", Call: true})
 			var md metadata.MD
 			var err error
